@@ -122,11 +122,16 @@ def process (h : Hdr) : Verdict :=
   if !src.isEmpty && containsSpParen src && src.getLast? ≠ some ')' then .fail else
   .pkg name ver
 
+/-- `Peek(1)` at the start of `ReadMIMEHeader`: does the next line start with a space or tab -/
+def headSpTab : List Line → Bool
+  | l :: _ => startsSpTab l
+  | [] => false
+
 /-- the record loop; every iteration consumes a line or stops -/
 def loop : Nat → List Line → List (List Char × List Char) → Option (List (List Char × List Char))
   | 0, _, acc => some acc
   | fuel + 1, ls, acc =>
-    if (match ls with | l :: _ => startsSpTab l | [] => false) then none else
+    if headSpTab ls then none else
     match stanza ls [] none with
     | none => none
     | some (h, eof, rest) =>
